@@ -6,6 +6,8 @@ model-independent oracles on the implementation alone:
   (i)   M^T S6 M = S6 and exact seventh row for transfer_map(E) of every element class over sampled parameters;
         cavity with voltage: each transverse block determinant == Ei/Ef;
   (iii) autograd Jacobian of track() on a one-particle beam (Bmad-X drift / quadrupole / dipole, TDC; Cavity block det);
+        for the Bmad-X drift, quadrupole (eps := 0) and dipole the symplecticity of the Jacobian at every point is PROVED on the Coq models
+        (Bmadx/SymplX.v, SymplXQuad.v, SymplXBend.v; Props C03_quadx_*, C03_sector_map_*, C03_bendx_*); the oracle remains the tie to the code;
   (iv)  emittance before/after for uncoupled elements (both beam types), cavity ratio Ei/Ef;
   seventh component of particles / mu exactly one after track.
 """
@@ -677,9 +679,26 @@ def main(tier, replay=None):
     bad += stage("jacobians", oracle_jacobians, 120 if thorough else 8)
     bad += stage("emittance", oracle_emittance, 800 if thorough else 64)
     bad += stage("seventh", oracle_seventh_track, 200 if thorough else 20)
+    run.cov["proved_nonlinear"] = [
+        "Bmad-X drift: Jacobian symplectic at every point of the paraxial region (C03_driftx_*)",
+        "Bmad-X quadrupole (Coq model Bmadx/QuadX.v of C07, eps := 0): the explicit matrix quadx_jac is the derivative of the coded step along every "
+        "direction at every point with 1+pz > 0, k1 != 0, and J^T S J = S (C03_quadx_step_symplectic); whole element with num_steps, misalignment, "
+        "tilt (C03_quadx_element_symplectic); transfer to Cheetah coordinates (C03_bmadx_cheetah_symplectic)",
+        "Bmad-X dipole (Coq model Bmadx/BendX.v of C07): the exact sector map's 6x6 Jacobian (all 36 entries) = shear * rotation * shear, symplectic "
+        "(C03_sector_map_symplectic); the coded fringe ; body ; fringe with tilt at every point around which the code is defined and arctan2 does "
+        "not wrap (C03_bendx_element_symplectic)",
+    ]
     run.cov["tested_only"] = [
-        "Bmad-X bend body (asin/atan2 formula), quadrupole step with sqrt(|k1|+eps), TDC kick, Cavity.track: Jacobian symplecticity / block determinant "
-        "checked numerically (autograd, 1e-9), not proved",
+        "Bmad-X quadrupole with the CODED eps = 2^-52 in sqrt(|k1|+eps): symplectic only up to eps; the defect 1 -+ eps*sx^2 of the (x,px) entry is proved "
+        "(C03_quadx_eps_defect_partial); k1 = 0 (code: sqrt(eps) branch) and the branch threshold of low_energy_z_correction (a jump of < 4e-13*L in z) "
+        "are outside the theorem; the autograd oracle (1e-9) covers them",
+        "Bmad-X dipole: that the region where the code is defined (bb_defined) and arctan2 does not wrap is OPEN is not proved in general (BendXJacLoc has it "
+        "along the axes at the design orbit): the theorem assumes a neighbourhood along every line; bends below -pi (finding F70 of C07) are outside",
+        "chain rule through the non-linear coordinate change (tau,delta) <-> (z,pz): proved at the level of matrices (any Jc with N_out Jc = Jb N_in), "
+        "the Jacobians N themselves only through C03_dpz_ddelta",
+        "TDC kick, Cavity.track: Jacobian symplecticity / block determinant checked numerically (autograd, 1e-9), not proved",
+        "the Coq models of the Bmad-X quadrupole and dipole are tied to the code value by value by C07's correspondence; here the autograd Jacobian of "
+        "the real track() at random off-axis points (incl. tilt, misalignment, num_steps, bends >= 90 degrees) is the tie",
         "tilted / misaligned quadrupole, dipole, rbend, corrector, undulator entries are tied to the model only through the symplectic/affine oracle "
         "and the closure theorems, not entry by entry (that is C02's correspondence)",
         "six-dimensional determinant = 1 (follows from M^T S M = S; not proved as a separate Coq statement)",
